@@ -6,6 +6,7 @@ from __future__ import annotations
 import json
 import logging as pylog
 import os
+import re
 import string
 
 from ..common import Check
@@ -47,7 +48,7 @@ _sims: dict = {}
 # ----------------------------------------------------------------------------- generation
 def gen_fmt(rng, nfields_max: int):
     """a format string, the index of the argument used by each replacement field, and per field whether it is `s`"""
-    lits = ["", "", " ", "x=", ", ", " | ", "v:", "{{", "}}", "100% ", "é→", "[", "] ", "a b"]
+    lits = ["", "", " ", "x=", ", ", " | ", "v:", "{{", "}}", "100% ", "é→", "[", "] ", "a b", "%d", "%s ", "%%", "50%% of %(x)s"]
     parts = []
     kinds = []  # per argument: "n" numeric or "s" string
     nargs = 0
@@ -299,6 +300,8 @@ def gen_trace(rng, spec, ncycles: int, style: str) -> list[str]:
                         bs.append(0)
                     elif q < 0.27 and len(bs) + 2 <= n:
                         bs += "é".encode()
+                    elif q < 0.4 and len(bs) + 2 <= n:
+                        bs += rng.choice(["%d", "%s", "%%", "%("]).encode()
                     else:
                         bs.append(ord(rng.choice(alphabet)))
                 fv.append(int.from_bytes(bytes(bs[:n]), "little"))
@@ -354,7 +357,13 @@ class _Capture(pylog.Handler):
         self.recs = []
 
     def emit(self, r):
-        self.recs.append((self.mod._sim_cycle, r.levelno, r.name, r.args))
+        # the text a handler would print: record.getMessage(); if that raises the record is lost for every
+        # handler (logging swallows the error) - that is the observation then
+        try:
+            text = r.getMessage()
+        except Exception:  # noqa: BLE001
+            text = None
+        self.recs.append((self.mod._sim_cycle, r.levelno, r.name, text))
 
 
 class _Built:
@@ -500,8 +509,15 @@ def impl(case: Case) -> list[str]:
         inputs.append([_ints(p) for p in t["v"].split("/")])
     recs, exc, exc_cycle = b.run(inputs)
     by_cycle: dict[int, list] = {}
-    for cyc, lv, name, args in recs:
-        by_cycle.setdefault(cyc, []).append(f"{args[1]}.{lv}.{hx(name)}.{hx(args[2])}")
+    for cyc, lv, name, text in recs:
+        m = re.match(r"\[gen:(\d+)\] (.*)\Z", text, re.S) if text is not None else None
+        if text is None:
+            ent = f"x.{lv}.{hx(name)}.lost"
+        elif m is None:
+            ent = f"x.{lv}.{hx(name)}.{hx(text)}"
+        else:
+            ent = f"{m.group(1)}.{lv}.{hx(name)}.{hx(m.group(2))}"
+        by_cycle.setdefault(cyc, []).append(ent)
     out = ["ok"]
     for k in range(len(case.ops)):
         if exc is not None and k > exc_cycle:
@@ -558,7 +574,12 @@ def monitor(case: Case, out: list[str]):
         f = dict(x.split("=", 1) for x in o.split())
         got = [] if f["m"] == "-" else f["m"].split(";")
         if got != exp:
-            return f"cycle {k}: reported {_pretty(got)} but the records whose trigger holds in context, formatted by str.format, are {_pretty(exp)}"
+            bad = sorted({int(e.split(".")[0]) for e in exp if e not in got})
+            fmts = {i: spec["recs"][i]["fmt"] for i in bad}
+            return (
+                f"cycle {k}: reported {_pretty(got)} but the records whose trigger holds in context, formatted by "
+                f"str.format, are {_pretty(exp)}; format strings of the lost/altered records: {fmts}"
+            )
         if err and f["err"] != "1":
             return f"cycle {k}: an ERROR-level record fired but the simulation did not end with a failure"
         if not err and f["err"] != "0":
@@ -571,7 +592,8 @@ def _pretty(ms):
     out = []
     for m in ms:
         i, lv, name, msg = m.split(".")
-        out.append((int(i), int(lv), bytes.fromhex(name).decode(), bytes.fromhex(msg).decode()))
+        text = "<record lost: getMessage() raised>" if msg == "lost" else bytes.fromhex(msg).decode()
+        out.append((i if i == "x" else int(i), int(lv), bytes.fromhex(name).decode(), text))
     return out
 
 
